@@ -30,11 +30,12 @@ fuzz_target!(|data: &[u8]| {
             11 => Choice::Symbol(Reply::Msg(M::Report(common::pick(&mut u, &foreign), u.int_in_range(0..=12u8).unwrap_or(0)))),
             12 => Choice::Symbol(Reply::Msg(M::Ack(addr, u.int_in_range(0..=5u8).unwrap_or(0)))),
             13 => Choice::Symbol(Reply::Msg(M::Ack(common::pick(&mut u, &foreign), u.int_in_range(0..=5u8).unwrap_or(0)))),
-            14 => Choice::Symbol(Reply::None),
+            14 => if u.arbitrary().unwrap_or(false) { Choice::Symbol(Reply::Echo) } else { Choice::Symbol(Reply::None) },
             _ => Choice::Symbol(Reply::BusError),
         });
     }
-    let case = SeqCase { base: ConvCase { op, addr, sign_type, pages, page_seed: 1, script }, then };
+    let bus_error_kind = u.int_in_range(0..=4u8).unwrap_or(0);
+    let case = SeqCase { base: ConvCase { op, addr, sign_type, pages, page_seed: 1, script, bus_error_kind }, then };
     let mut st = Stats::new();
     if let Err(m) = check_sequence(&case, false, &mut st) {
         common::violation("C10", "sequences", serde_json::to_value(&case).unwrap(), m);
